@@ -19,12 +19,12 @@ ID = "C15"
 META = {
     "rule": "for each graph of the family: BFS over the state graph whose nodes are bitwise digests of EVERYTHING reachable from the Graph object (generic __dict__ walker: poses, estimates, "
     "information, offsets, ids, flags, list orders, caches) and whose transitions are ~35 + 14 n^2 queries (graph/edge/vertex/pose queries incl. the numerical-Jacobian fallback, "
-    "exports, equals, every pose operator and Jacobian method on every ordered pose pair, copy-then-mutate, p2=p; p2+=q) plus bounded environment steps (<=2 optimizer calls with "
-    "fix_first_pose in {F,T}, <=1 in-place user edit / rebinding of a pose). The search runs to FIXPOINT (no new state), so every interleaving of any length is covered. Invariants on every "
+    "exports, equals, every pose operator and Jacobian method on every ordered pose pair, copy-then-mutate, p2=p; p2+=q) plus bounded environment steps (<=2 optimizer calls from {one iteration, one iteration with fix_first_pose, a converging run}, <=1 in-place user edit / rebinding of a pose). "
+    "Graphs include vertices whose pose object IS an edge's measurement / offset object (object reuse). The search runs to FIXPOINT (no new state), so every interleaving of any length is covered. Invariants on every "
     "transition: observable snapshot bitwise unchanged by a query; a query's value equals the value on a freshly constructed twin of the same observable state (path independence / no hidden "
-    "state); optimize changes nothing but poses of non-fixed vertices (+ first vertex's flag when asked). non-trivial = transition whose query returns a non-constant value",
+    "state); optimize changes nothing but poses of non-fixed vertices (+ first vertex's flag when asked) and does exactly what it does on a fresh twin (no hidden state between calls). non-trivial = transition whose query returns a non-constant value",
     "assumptions": ["observable state = poses, estimates, information, offsets, ids, fixed flags, list orders, parameters (bitwise); everything else reachable is cache and only refines state identity"],
-    "required_classes": ["fixpoint_reached", "numeric_jacobian_query", "stored_plus_pi", "parallel_edges", "optimize_transition", "inplace_edit_transition", "export_query", "pose_operator_query"],
+    "required_classes": ["shared_objects", "converging_run_transition", "fixpoint_reached", "numeric_jacobian_query", "stored_plus_pi", "parallel_edges", "optimize_transition", "inplace_edit_transition", "export_query", "pose_operator_query"],
     "bounds": {"quick": "8 graphs (SE2, SE3, R2, R3, mixed worlds; stored angle +pi; w<0; parallel edges; numeric custom edges) x fixpoint", "thorough": "quick + every type multiset of F(3) with a spanning edge multiset (20 graphs) x 2 fixed choices"},
 }
 
@@ -101,6 +101,19 @@ def specs(tier, seed):
         ],
     }
     out.append(("mixed", mixed))
+    # object reuse: a vertex's initial pose IS the measurement object of an edge / the offset object of a landmark edge
+    shared2 = copy.deepcopy(se2b)
+    shared2["share"] = [["vertex", 1, "estimate", 0], ["vertex", 0, "offset", 2]]
+    shared2["vertices"][1]["fixed"] = False
+    shared2["vertices"][0]["fixed"] = True
+    shared2["vertices"][1]["pose"] = list(shared2["edges"][0]["z"])
+    shared2["vertices"][0]["pose"] = list(shared2["edges"][2]["off"])
+    out.append(("shared_se2", shared2))
+    shared3 = copy.deepcopy(se3)
+    shared3["share"] = [["vertex", 1, "estimate", 0]]
+    shared3["vertices"][0]["fixed"] = True
+    shared3["vertices"][1]["pose"] = list(shared3["edges"][0]["z"])
+    out.append(("shared_se3", shared3))
     single = {"vertices": [{"id": 5, "kind": "SE2", "pose": [1.0, 2.0, A.ANG_PLUS_PI_SOURCE], "fixed": False}], "edges": [{"type": "numprior", "ids": [5], "z": [0.5, 0.5, 0.5], "om": A.spd(3, seed, "x")}]}
     out.append(("single", single))
     if tier == "thorough":
@@ -130,7 +143,13 @@ def specs(tier, seed):
 class World:
     def __init__(self, spec):
         self.spec = spec
-        self.g, self.verts, self.edges = GB.build(spec)
+        self.g, self.verts, self.edges = GB.build({k: v for k, v in spec.items() if k != "share"})
+        for what, vi, field, ei in spec.get("share", []):
+            # the vertex's pose object is the very same object as the edge's measurement / offset
+            if field == "estimate":
+                self.verts[vi].pose = self.edges[ei].estimate
+            else:
+                self.verts[vi].pose = self.edges[ei].offset
         self.n_opt = 0
         self.n_edit = 0
 
@@ -166,10 +185,22 @@ def obs_key(w):
 
 
 def twin(w):
-    """a freshly constructed world in exactly the same observable state (bit-exact poses and flags)."""
+    """a freshly constructed world in exactly the same observable state (bit-exact arrays and flags) and with the same
+    aliasing between vertex poses and edge measurements / offsets as the world has NOW."""
     t = World(w.spec)
-    for vt, v in zip(t.verts, I.graph_vertices(w.g)):
-        np.asarray(vt.pose)[...] = np.asarray(v.pose)
+    for et, e in zip(t.edges, I.graph_edges(w.g)):
+        if isinstance(et.estimate, np.ndarray):
+            np.asarray(et.estimate)[...] = np.asarray(e.estimate)
+        if getattr(et, "offset", None) is not None:
+            np.asarray(et.offset)[...] = np.asarray(e.offset)
+        np.asarray(et.information)[...] = np.asarray(e.information)
+    for k, (vt, v) in enumerate(zip(t.verts, I.graph_vertices(w.g))):
+        still_shared = any(v.pose is e.estimate or v.pose is getattr(e, "offset", None) for e in I.graph_edges(w.g))
+        twin_shared = any(vt.pose is e.estimate or vt.pose is getattr(e, "offset", None) for e in t.edges)
+        if twin_shared and not still_shared:
+            vt.pose = copy.deepcopy(v.pose)  # the world re-bound this pose since (e.g. optimize), the sharing is gone
+        else:
+            np.asarray(vt.pose)[...] = np.asarray(v.pose)
         vt.fixed = bool(v.fixed)
     return t
 
@@ -204,7 +235,7 @@ def query_ops(w):
 def env_ops(w):
     ops = []
     if w.n_opt < 2:
-        ops += ["opt1", "optF"]
+        ops += ["opt1", "optF", "optC"]
     if w.n_edit < 1:
         ops += ["nudge", "rebind"]
     return ops
@@ -221,9 +252,12 @@ def _safe(f):
 def apply_op(w, op, tmpdir):
     """returns the query's value (digestable)."""
     g = w.g
-    if op == "opt1" or op == "optF":
+    if op in ("opt1", "optF", "optC"):
         w.n_opt += 1
-        r = _safe(lambda: GB.optimize(g, tol=0.0, max_iter=1, fix_first_pose=(op == "optF")))
+        if op == "optC":  # a run that may converge inside the loop (leaves a 'current' linearization behind)
+            r = _safe(lambda: GB.optimize(g, tol=1e-2, max_iter=6, fix_first_pose=False))
+        else:
+            r = _safe(lambda: GB.optimize(g, tol=0.0, max_iter=1, fix_first_pose=(op == "optF")))
         return ("report", getattr(r, "initial_chi2", r), getattr(r, "final_chi2", None), getattr(r, "num_iterations", None), getattr(r, "converged", None)) if not isinstance(r, tuple) else r
     if op == "nudge":
         w.n_edit += 1
@@ -347,6 +381,32 @@ def eval_case(case):
         shutil.rmtree(tmp, ignore_errors=True)
 
 
+def _close_bytes(a, b, rel=1e-12):
+    if a == b:
+        return True
+    x, y = np.frombuffer(a), np.frombuffer(b)
+    if x.shape != y.shape:
+        return False
+    with np.errstate(all="ignore"):
+        return bool(np.all((x == y) | (np.isnan(x) & np.isnan(y)) | (np.abs(x - y) <= rel * np.maximum(np.abs(x), np.abs(y)))))
+
+
+def _close_report(a, b, rel=1e-12):
+    if type(a) != type(b) or len(a) != len(b):
+        return False
+    for x, y in zip(a, b):
+        if isinstance(x, float) or isinstance(y, float) or hasattr(x, "dtype"):
+            try:
+                x, y = float(x), float(y)
+            except (TypeError, ValueError):
+                return x is y
+            if not (x == y or (x != x and y != y) or abs(x - y) <= rel * max(abs(x), abs(y))):
+                return False
+        elif x != y:
+            return False
+    return True
+
+
 def check_transition(base, op, tmp, table):
     """apply op on a deep copy of base; returns (msgs, next_world, info)."""
     msgs = []
@@ -355,7 +415,15 @@ def check_transition(base, op, tmp, table):
     ret = apply_op(nxt, op, tmp)
     obs1 = observable(nxt)
     info = {"twin": 0}
-    if op in ("opt1", "optF"):
+    if op in ("opt1", "optF", "optC"):
+        # no hidden state: the run must do exactly what it does on a freshly constructed twin of the same observable state
+        t = twin(base)
+        rt = apply_op(t, op, tmp)
+        info["twin"] = 1
+        ot = observable(t)
+        same = len(ot[0]) == len(obs1[0]) and all(_close_bytes(a[3], b[3]) and a[:3] == b[:3] for a, b in zip(ot[0], obs1[0]))
+        if not same or not _close_report(ret, rt):
+            msgs.append("%s after this history gives a different result than on a freshly constructed graph in the same observable state (hidden state between calls): report %r vs %r" % (op, ret, rt))
         flags0 = [v[1] for v in obs0[0]]
         exp_fixed = list(flags0)
         if op == "optF":
@@ -415,6 +483,8 @@ def explore_graph(spec, name, seed):
         ids = [tuple(e["ids"]) for e in spec["edges"]]
         if len(set(ids)) < len(ids):
             classes.add("parallel_edges")
+        if spec.get("share"):
+            classes.add("shared_objects")
         example = []
         capped = False
         while frontier:
@@ -429,6 +499,8 @@ def explore_graph(spec, name, seed):
                     classes.add("numeric_jacobian_query")
                 if op.startswith("opt"):
                     classes.add("optimize_transition")
+                if op == "optC":
+                    classes.add("converging_run_transition")
                 if op in ("nudge", "rebind"):
                     classes.add("inplace_edit_transition")
                 if "to_g2o" in op:
